@@ -47,7 +47,7 @@ ASSUMPTIONS = [
 ]
 PROBES = ["overwrite_longer_then_shorter", "overwrite_other_kind", "txt_single_column", "txt_single_row", "txt_1x1", "txt_default_format",
           "net2d_empty", "net2d_no_header", "net3d_no_domain", "net3d_with_domain", "io_error_on_open", "io_error_on_write", "read_after_failed_write_skipped",
-          "three_paths", "polygon_6_vertices", "txt_integer_column", "txt_integer_first_then_float", "net2d_constrained_before_write", "net3d_georeferenced_coordinates", "net2d_tagged_fractures", "file_names_with_inner_dots", "rejected_txt_export", "rejected_export_onto_existing_file"]
+          "three_paths", "polygon_6_vertices", "txt_integer_column", "txt_integer_first_then_float", "net2d_constrained_before_write", "net3d_georeferenced_coordinates", "net2d_tagged_fractures", "file_names_with_inner_dots", "rejected_txt_export", "rejected_export_onto_existing_file", "net2d_constrained_has_sub_tolerance_features_skipped"]
 
 
 # --------------------------------------------------------------------------------------
@@ -214,6 +214,16 @@ def run_history_c47(ch, tr: Trace) -> None:
                     tr.probe("net2d_constrained_before_write")
                 except Exception:  # noqa: BLE001  (degenerate cuts are not the point here)
                     net = pp.create_fracture_network(fracs, dom)
+                # Cutting at the boundary can create points closer to each other than the tolerance within which a
+                # network identifies points (a fracture leaving the box 4e-6 from a corner): the reader, which builds a
+                # network again, merges them.  Such sub-tolerance features are not "the same fractures" in any exact
+                # sense; networks that have them are not written (found by a thorough run, see DESIGN section 7).
+                P = net._pts
+                if P.shape[1] > 1:
+                    dist = np.sqrt(((P[:, :, None] - P[:, None, :]) ** 2).sum(axis=0)) + np.eye(P.shape[1])
+                    if dist.min() < 1.0e-3:
+                        tr.probe("net2d_constrained_has_sub_tolerance_features_skipped")
+                        net = pp.create_fracture_network(fracs, dom)
             payload = (canon2d(net._pts, net._edges), header)
             if not segs:
                 tr.probe("net2d_empty")
